@@ -6,7 +6,7 @@ From ClapModel Require Import Base.Bytes Base.Machine Base.Utf8.
 From ClapModel Require Import Parse.Cmd Parse.Build Parse.Valid Parse.Matcher Parse.Errors Parse.Validator Parse.Parser.
 From ClapModel Require Import ParseProofs.Safe ParseProofs.Invariant ParseProofs.Totality
                               ParseProofs.ValidateTotal ParseProofs.Relations ParseProofs.TotalityMain
-                              ParseProofs.Sites ParseProofs.SitesComplete.
+                              ParseProofs.Sites ParseProofs.SitesComplete ParseProofs.FlagSubClass.
 From ClapModel Require Import Errors.RenderModel Errors.RenderLink.
 From ClapModel Require Gen.ErrorCtx.
 From ClapModel Require Gen.ParseSites.
@@ -212,3 +212,24 @@ Print Assumptions C01_constructed_rich.
 Theorem C01_signature_table : forall e, error_signature_table e = error_signature e.
 Proof. exact error_signature_table_ok. Qed.
 Print Assumptions C01_signature_table.
+
+(** ---------- round 2 (3): short flag-subcommands ----------
+    [C01_no_panic] stays stated for [plain].  The wider classes one would try are refuted by the faithful model
+    (each witness also panics the real crate, debug build, in debug_assert_eq!(advance_by(skip), Ok(()))): *)
+
+(** "every short-named argument consumes exactly one index per occurrence" does not suffice: [flag_subcmd_at] is
+    never cleared after `-Sx`, the next cluster `-Qy` of the child computes its skip from the stale value *)
+Theorem C01_no_panic_one_index_refuted :
+  valid stale_cmd = true /\ unplain_ok stale_cmd = true /\ one_index_flags stale_cmd = true
+  /\ parse_top stale_cmd [[112]; [45; 83; 120]; [45; 81; 121]] = OPanicked 920.
+Proof. exact stale_at_witness. Qed.
+Print Assumptions C01_no_panic_one_index_refuted.
+
+(** nor does "... and short flag-subcommands are not nested": a re-read cluster accepted as a hyphen value leaves
+    [flag_subcmd_skip] unconsumed (`p -Sz -\xff`) *)
+Theorem C01_no_panic_flat_refuted :
+  valid hyphen_cmd = true /\ unplain_ok hyphen_cmd = true /\ one_index_flags hyphen_cmd = true
+  /\ flat_flag_subs hyphen_cmd = true
+  /\ parse_top hyphen_cmd [[112]; [45; 83; 122]; [45; 255]] = OPanicked 920.
+Proof. exact unconsumed_skip_witness. Qed.
+Print Assumptions C01_no_panic_flat_refuted.
